@@ -192,10 +192,27 @@ def assertion_text(loc):
         return '?'
 
 
+_plugins = None
+
+
+def plugins():
+    """Per-property oracle modules tools/oracle_cXX.py, each exposing judge(hdr, ops, tree, config, rejections, stats)."""
+    global _plugins
+    if _plugins is None:
+        import os, glob, importlib
+        _plugins = []
+        here = os.path.dirname(os.path.abspath(__file__))
+        for f in sorted(glob.glob(os.path.join(here, 'oracle_c[0-9][0-9].py'))):
+            _plugins.append(importlib.import_module(os.path.basename(f)[:-3]))
+    return _plugins
+
+
 def judge_file(path, shape, config, rejections, stats, asserts):
     tree = build_tree(shape)
     for hdr, ops in scenarios(path):
         stats.inc('scenarios')
+        for mod in plugins():
+            mod.judge(hdr, ops, tree, config, rejections, stats)
         active = {0: False, 1: False}      # machine activated?
         last_snap = {}
         for idx, op in enumerate(ops):
